@@ -126,7 +126,11 @@ def run(ctx):
             last_k = re.findall(r"^K (-?\d+)$", res["out"], flags=re.M)
             at = {"k": int(last_k[-1])} if last_k else {}
             if res["timed_out"]:
-                ctx.violation("hang-after-failed-allocation:" + s, dict(detail, **at))
+                ctx.count("watchdog_timeouts")
+                ctx.inconclusive("wall-clock watchdog fired for %s (not a verdict: the statement has no termination clause)" % detail)
+                continue
+            if res["rc"] == 127:
+                ctx.inconclusive("harness executable could not start: " + res["err"][-200:])
                 continue
             for kind, sig, text in res["reports"]:
                 ctx.violation("sanitizer-after-failed-allocation:%s:%s" % (s, sig), dict(detail, report=text, **at))
